@@ -168,7 +168,7 @@ fn eval_union_expr(
     if rest.len() == 0 {
         if let model::Value::Node(mut nodes) = value {
             let mut set = HashSet::new();
-            nodes.retain(|v| set.insert(v.order()));
+            nodes.retain(|v| set.insert(document_order(v)));
 
             return Ok(nodes.as_value());
         } else {
@@ -191,8 +191,8 @@ fn eval_union_expr(
     }
 
     let mut set = HashSet::new();
-    nodes.retain(|v| set.insert(v.order()));
-    nodes.sort_by_cached_key(|v| v.order());
+    nodes.retain(|v| set.insert(document_order(v)));
+    nodes.sort_by_cached_key(document_order);
 
     Ok(nodes.as_value())
 }
@@ -303,7 +303,7 @@ fn eval_filtered_loc_expr(
         collected.append(&mut eval_loc_expr(location, n.clone(), context)?);
     }
 
-    collected.sort_by_cached_key(|v| v.order());
+    collected.sort_by_cached_key(document_order);
 
     Ok(collected)
 }
@@ -394,18 +394,18 @@ fn eval_axis_node_test(
 
     match axis {
         expr::AxisSpecifier::Abbreviated(_) => {
-            nodes.sort_by_cached_key(|v| v.order());
+            nodes.sort_by_cached_key(document_order);
         }
         expr::AxisSpecifier::Name(specifier) => match specifier {
             expr::AxisName::Ancestor
             | expr::AxisName::AncestorOrSelf
             | expr::AxisName::Preceding
             | expr::AxisName::PrecedingSibling => {
-                nodes.sort_by_cached_key(|v| v.order());
+                nodes.sort_by_cached_key(document_order);
                 nodes.reverse();
             }
             _ => {
-                nodes.sort_by_cached_key(|v| v.order());
+                nodes.sort_by_cached_key(document_order);
             }
         },
     }
@@ -657,6 +657,21 @@ fn preceding(node: dom::XmlNode) -> Vec<dom::XmlNode> {
     }
 
     nodes
+}
+
+/// Key that identifies a node in a node-set and sorts node-sets in document order.
+///
+/// The namespace nodes of an element are built from the declarations in scope, so a declaration
+/// inherited by several elements yields the same information item for each of them. They are
+/// keyed by their element instead: after the element itself and before its attributes.
+fn document_order(node: &dom::XmlNode) -> (usize, usize) {
+    match node {
+        dom::XmlNode::Namespace(ns) => match ns.owner_element() {
+            Some(owner) => (owner.as_node().order(), node.order() + 1),
+            None => (node.order(), 0),
+        },
+        _ => (node.order(), 0),
+    }
 }
 
 /// Parent in the XPath data model: attribute and namespace nodes have their element as parent.
